@@ -2,7 +2,7 @@
 Regenerates lean/PedalModel/Gen/TypeTables.lean:
 
 * `binopTable`   — pedal.types.operations.VALID_BINOP_TYPES, introspected: operator class x left type class x
-                   right type class -> the result function, identified by *function identity*;
+                   right type class -> the result function, identified by what it returns on fresh operand types;
 * `orderable`    — every (left class, right class) pair with `right in left.orderable` (the Compare rule);
 * `cpython`      — CPython's own truth, by executing every binary / comparison operator on several representative
                    values per class (the five core classes, plus bool because comparisons of core values produce it): does it raise TypeError for every pair of representatives, and which run-time
@@ -59,25 +59,65 @@ def cls_ctor(name):
     return (".%s" % name) if name in CLS_CTORS else "(.other %s)" % lean_str(name)
 
 
+def classify_result_fn(fn, left_cls, right_cls, nt):
+    """Identify a VALID_BINOP_TYPES cell *behaviourally*: call it on fresh operand types and look at what comes
+    back (survives renaming/re-wrapping of the helper functions, and sees a changed helper body)."""
+    scalar = {nt.NumType: "numAny", nt.IntType: "intAny", nt.FloatType: "floatAny", nt.StrType: "strAny",
+              nt.BoolType: "boolAny"}
+
+    def make(cls, marker, empty=False):
+        if issubclass(cls, nt.ElementContainerType):
+            return cls(empty, marker)
+        if cls is nt.TupleType:
+            return cls(() if empty else (marker,))
+        if cls is nt.StrType:
+            return cls(False)
+        return cls()
+    try:
+        ma, mb = nt.IntType(), nt.StrType(False)          # element markers, told apart by identity/class
+        l, r = make(left_cls, ma), make(right_cls, mb)
+        res = fn(l, r)
+        if res is l:
+            return ".keepLeft"
+        if res is r:
+            return ".keepRight"
+        if type(res) in scalar and not isinstance(res, nt.LiteralValue):
+            # must not depend on the operands: try the other emptiness too
+            res2 = fn(make(left_cls, ma, True), make(right_cls, mb, True))
+            if type(res2) is type(res):
+                return "." + scalar[type(res)]
+        if isinstance(res, nt.ElementContainerType) and isinstance(l, nt.ElementContainerType) \
+                and isinstance(r, nt.ElementContainerType):
+            # add_element_container_types: a copy of the left operand, or of the right one when the left is empty
+            res_e = fn(make(left_cls, ma, True), make(right_cls, mb))
+            if (type(res) is type(l) and type(res.element_type) is type(ma) and not res.is_empty
+                    and type(res_e) is type(r) and type(res_e.element_type) is type(mb)):
+                return ".addContainers"
+        if type(res) is nt.TupleType and left_cls is nt.TupleType and right_cls is nt.TupleType:
+            if isinstance(res.element_types, tuple) and len(res.element_types) == 2 \
+                    and res.element_types[0] is ma and res.element_types[1] is mb:
+                return ".addTuples"
+        return "(.unknown %s)" % lean_str("%s -> %s" % (getattr(fn, "__name__", "?"), type(res).__name__))
+    except Exception as e:  # noqa
+        return "(.unknown %s)" % lean_str("%s raised %s" % (getattr(fn, "__name__", "?"), type(e).__name__))
+
+
 def binop_rows():
     use_repo()
     from pedal.types import operations as ops
+    from pedal.types import new_types as nt
     by_ast = {cls: name for name, cls, _, _ in BINOPS}
-    fns = {}
-    for lean_name, py_name in [("numAny", "NumType_any"), ("intAny", "IntType_any"), ("floatAny", "FloatType_any"),
-                               ("strAny", "StrType_any"), ("boolAny", "BoolType_any"), ("keepLeft", "keep_left"),
-                               ("keepRight", "keep_right"), ("addContainers", "add_element_container_types"),
-                               ("addTuples", "add_tuples")]:
-        if hasattr(ops, py_name):
-            fns[id(getattr(ops, py_name))] = lean_name
     rows = []
     for op_cls, left_table in ops.VALID_BINOP_TYPES.items():
         op = (".%s" % by_ast[op_cls]) if op_cls in by_ast else "(.unknown %s)" % lean_str(getattr(op_cls, "__name__", repr(op_cls)))
         for left, right_table in left_table.items():
             for right, fn in right_table.items():
-                res = (".%s" % fns[id(fn)]) if id(fn) in fns else "(.unknown %s)" % lean_str(getattr(fn, "__name__", repr(fn)))
+                if isinstance(left, type) and isinstance(right, type) and callable(fn):
+                    res = classify_result_fn(fn, left, right, nt)
+                else:
+                    res = "(.unknown %s)" % lean_str(repr(fn))
                 rows.append("(%s, %s, %s, %s)" % (op, key_ctor(left), key_ctor(right), res))
-    return rows
+    return sorted(rows)          # dictionary order is irrelevant to lookups
 
 
 def orderable_rows():
